@@ -23,7 +23,8 @@ RULE = ("(types) Hypothesis draws a basis of 1-3 generalized shells (l 0..3, M 1
         "result contracted on every basis index with block-diagonal R4 matrices (density-type functions: density matrix pulled "
         "back); then result(T) = T applied on every index of result(no T), rectangular T included.  (conventions) shell "
         "subclasses reporting permuted Cartesian components / permuted and signed spherical labels (all for l <= 1 enumerated "
-        "per case, drawn above) must give outputs permuted and signed accordingly in every module.  (assembly) the four "
+        "per case, drawn above) must give outputs permuted and signed accordingly in every module; the same through the IOData import "
+        "path (gbasis.wrappers.from_iodata driven with a stand-in IOData object and drawn per-angular-momentum conventions).  (assembly) the four "
         "assembly base classes are driven with labelled dummy blocks cut from a ground-truth tensor with forced random "
         "normalisation constants: all 1- and 2-shell shapes over (l 0..2, M 1..2, c/s) enumerated (3-shell shapes drawn; "
         "four-index class: all shapes up to 3 shells over l 0..1, M 1..2), every construct_array_* path.  Non-trivial: both "
@@ -262,6 +263,122 @@ def judge_conv(case):
         if not d <= q.tol:
             return v.fail(f"{q.name} with convention shells and a transformation: deviation {d:.3e} at {at}")
     return v
+
+
+# ---- conventions through the IOData import path (gbasis.wrappers.from_iodata with a stand-in for the iodata package) ----------
+def _fake_iodata():
+    """from_iodata only needs iodata.convert.convert_to_segmented; the stand-in returns a segmented basis unchanged."""
+    import sys
+    import types
+
+    if "iodata.convert" not in sys.modules or not getattr(sys.modules["iodata.convert"], "_vf_fake", False):
+        pkg = types.ModuleType("iodata")
+        conv = types.ModuleType("iodata.convert")
+        conv.convert_to_segmented = lambda obasis: obasis
+        conv._vf_fake = True
+        pkg.convert = conv
+        sys.modules["iodata"] = pkg
+        sys.modules["iodata.convert"] = conv
+
+
+@st.composite
+def iodata_case(draw, eri):
+    case = draw(types_case(eri))
+    for s in case["shells"]:  # IOData shells are segmented
+        s["coeffs"] = [[row[0]] for row in s["coeffs"]]
+    n = sum(nfunc(s) for s in case["shells"])
+    case["transform"] = draw(gen.transform_matrix(n))
+    case["G"], _ = draw(gen.sym_matrix(n))
+    conv = {}
+    for l in sorted({s["l"] for s in case["shells"]}):
+        cart = draw(st.permutations(r4.default_cart(l))) if draw(st.booleans()) else r4.default_cart(l)
+        lab = draw(st.permutations(r4.default_sph(l))) if draw(st.booleans()) else r4.default_sph(l)
+        if draw(st.booleans()):
+            lab = [("-" if draw(st.booleans()) else "") + x for x in lab]
+        conv[str(l)] = {"c": [list(c) for c in cart], "p": list(lab)}
+    case["iodata_conv"] = conv
+    return case
+
+
+def judge_iodata(case):
+    from gbasis.wrappers import from_iodata
+
+    _fake_iodata()
+    shells = case["shells"]
+    env = dict(case["env"])
+    conv = case["iodata_conv"]
+    v = Verdict(nontrivial=any(s["l"] >= 1 for s in shells))
+    quants = quant.ERI if case["eri"] else quant.INDEXED + quant.DENSITY
+
+    class Shell:  # iodata.basis.Shell stand-in
+        def __init__(self, icenter, d):
+            self.icenter = icenter
+            self.angmoms = [d["l"]]
+            self.kinds = ["c" if d["type"] == "cartesian" else "p"]
+            self.exponents = np.array(d["exps"], dtype=float)
+            self.coeffs = np.array(d["coeffs"], dtype=float)
+            self.ncon = 1
+
+    class MolecularBasis:
+        pass
+
+    class IOData:
+        pass
+
+    ob = MolecularBasis()
+    ob.shells = [Shell(i, d) for i, d in enumerate(shells)]
+    ob.conventions = {}
+    for l, c in conv.items():
+        ob.conventions[(int(l), "c")] = ["x" * a + "y" * b + "z" * cc for a, b, cc in c["c"]]
+        ob.conventions[(int(l), "p")] = list(c["p"])
+    ob.primitive_normalization = "L2"
+    mol = IOData()
+    mol.obasis = ob
+    mol.atcoords = np.array([d["coord"] for d in shells], dtype=float)
+    bio = lib(from_iodata, mol)
+    if len(bio) != len(shells):
+        return v.fail(f"from_iodata returned {len(bio)} shells for {len(shells)}")
+    for i, (b, d) in enumerate(zip(bio, shells)):
+        if not (b.angmom == d["l"] and b.coord_type == d["type"] and np.array_equal(b.exps, np.array(d["exps"]))
+                and np.array_equal(b.coeffs, np.array(d["coeffs"])) and np.array_equal(b.coord, np.array(d["coord"]))
+                and b.icenter == i):
+            return v.fail(f"from_iodata shell {i} does not preserve the molecule's data")
+    # reference: default-convention shells carrying the same (unit) contraction normalisation that IOData shells use
+    bd = mk_basis(shells)
+    for b in bd:
+        b.norm_cont = np.ones_like(b.norm_cont)
+    convs = [(conv[str(d["l"])]["c"], conv[str(d["l"])]["p"]) for d in shells]
+    C = conv_matrix(shells, convs)
+    n = C.shape[0]
+    G = np.array(case["G"], dtype=float)[:n, :n]
+    scd = quant.Scales(bd, env)
+    for q in quants:
+        if q.density:
+            got = lib(q, bio, env, None, G)
+            want = lib(q, bd, env, None, C.T @ G @ C)
+            d_, at = quant.same_dev(got, want, mag=scd.mag(q, C.T @ G @ C))
+        else:
+            got = lib(q, bio, env)
+            plain = lib(q, bd, env)
+            d_, at = quant.relation_dev(got, plain, [C] * len(q.axes), q.axes, nat=scd.nat(q, plain))
+        if not d_ <= q.tol:
+            return v.fail(f"{q.name}: shells imported through from_iodata with conventions {conv} do not give the default output "
+                          f"permuted and signed accordingly: deviation {d_:.3e} at {at}")
+    T = np.array(case["transform"], dtype=float)
+    for q in quants[:2]:
+        if not q.density:
+            got = lib(q, bio, env, T)
+            plain = lib(q, bd, env)
+            d_, at = quant.relation_dev(got, plain, [T @ C] * len(q.axes), q.axes, nat=scd.nat(q, plain))
+            if not d_ <= q.tol:
+                return v.fail(f"{q.name} (from_iodata shells, transform): deviation {d_:.3e} at {at}")
+    return v
+
+
+def shards_iodata(tier):
+    k, n = (6, 3) if tier == "quick" else (24, 20)
+    return ([{"id": f"q{i}", "n": n, "eri": False, "cost": 20 * n} for i in range(k)]
+            + [{"id": f"e{i}", "n": max(1, n // 2), "eri": True, "cost": 40 * n} for i in range(max(2, k // 3))])
 
 
 def shards_conv(tier):
@@ -507,6 +624,7 @@ SUBCHECKS = [
     SubCheck("types", judge_types, shards_types, strategy=lambda s: types_case(s["eri"])),
     SubCheck("conventions", judge_conv, shards_conv, strategy=lambda s: conv_case(s["eri"])),
     SubCheck("conventions-enum", judge_conv, shards_conv_enum, cases=conv_enum_cases),
+    SubCheck("conventions-iodata", judge_iodata, shards_iodata, strategy=lambda s: iodata_case(s["eri"])),
     SubCheck("assembly", judge_assembly, shards_assembly, cases=assembly_cases),
 ]
 EXHAUSTIVE = {"types": "every cartesian/spherical assignment (2^n) of each generated basis",
